@@ -284,7 +284,9 @@ class StackPartition(Concat):
         for df in self._frames:
             try:
                 check_meta(df._meta, self._meta)
-                match = True
+                # check_meta ignores the index; a partition that keeps an index
+                # name different from the concatenated meta must be aligned too
+                match = list(df._meta.index.names) == list(self._meta.index.names)
             except (ValueError, TypeError):
                 match = False
 
